@@ -225,6 +225,12 @@ def fixable_axes(case):
 
 
 # ------------------------------------------------------------------ building real pipefunc objects
+def _with_none(f, fault):
+    if not f.get("always_none"):
+        return fault
+    return {**(fault or {}), "none": "*"}
+
+
 def build_funcs(case, log=None, fault=None, tag=None, cache=None, extra=None):
     """Return list of PipeFunc.  `cache`: set of function names with cache=True.
     `extra`: per function name dict of extra PipeFunc kwargs."""
@@ -235,7 +241,7 @@ def build_funcs(case, log=None, fault=None, tag=None, cache=None, extra=None):
         iparams = f.get("iparams") or f["params"]
         fn = probes.make_probe(f["name"], iparams, len(f["outs"]), log=log,
                                internal_shape=f["internal_shape"], ret_list=f["ret_list"],
-                               fault=(fault or {}).get(f["name"]) if fault else None, tag=tag,
+                               fault=_with_none(f, (fault or {}).get(f["name"]) if fault else None), tag=tag,
                                as_dict=(f["outs"] if f.get("picker") else None))
         kw = {}
         if f.get("picker"):
@@ -301,6 +307,8 @@ def oracle(case, inputs=None, none_terms=()):
                     env[on] = arr
                 else:
                     env[on] = base
+            if f.get("always_none") and nout == 1 and not f["internal_shape"]:
+                env[f["outs"][0]] = None  # a function whose (only) result is None: a side-effect step
             continue
         out_axes = f["out_axes"]
         shape = tuple(sizes[a] for a in out_axes)
